@@ -200,6 +200,33 @@ theorem treeBuilder_root_within_max (H : HashFn) (algo : Nat) (b b' : Builder) (
   (accepted_leaf_root_within_max H algo b b' c level 0 .ok hm
     (by intro n' hn; simp only [Except.ok.injEq] at hn; subst hn; rfl) h root hc).1
 
+/-- **A leaf is refused by the height pre-check only when it would push the tree beyond the
+configured maximum**: if the plain tree builder refuses a leaf for its height, then adding it
+and closing — whenever those succeed — would yield a root above the maximum. -/
+theorem refused_leaf_would_exceed (H : HashFn) (algo : Nat) (b : Builder) (c : Content) (level : Nat) (e : Nat)
+    (hm : 0 < b.maxLevel) (h : heightCheck b level 0 = .error e) :
+    e = St.BUFFER_OVERFLOW ∧
+    ∀ st r, insert H algo b.stack (.leaf (some b.count) c level) = .ok st →
+      closeFold H algo none st = .ok (some r) → b.maxLevel < r.level := by
+  unfold heightCheck at h
+  have hm0 : ¬ b.maxLevel = 0 := by omega
+  simp only [hm0, ↓reduceIte, levelWithOverhead] at h
+  split at h
+  · rename_i hl
+    simp only [Except.error.injEq] at h
+    refine ⟨h.symm, ?_⟩
+    intro st r hi hc
+    rw [insert_close_level H algo b.stack _ st r hi hc]
+    exact Nat.lt_of_lt_of_le hl (highestLevel_ge b.stack level)
+  · split at h
+    · rename_i hh
+      simp only [Except.error.injEq] at h
+      refine ⟨h.symm, ?_⟩
+      intro st r hi hc
+      rw [insert_close_level H algo b.stack _ st r hi hc]
+      exact hh
+    · cases h
+
 /-! Non-vacuity: three leaves through a toy hash function. -/
 def toyH : HashFn := fun _ m => some [UInt8.ofNat m.length]
 example : ∃ b1 b2 b3 root,
